@@ -158,8 +158,20 @@ func (o *ReclaimOracle) AfterCycle(r *Run, cycle int, all []Decision) {
 			continue
 		}
 		// one scenario: this preemptor's evictions and every reclaim decision committed with them
+		// (placements of the preemptor's pods and re-placements of this scenario's victims belong to it; a placement of
+		// any other workload is a later scenario that needed no victims)
 		j := i
-		for j < len(ds) && ds[j].Action == d.Action && !(ds[j].Kind == "evict" && ds[j].Preemptor != d.Preemptor) {
+		victimGroups := map[string]bool{}
+		for j < len(ds) && ds[j].Action == d.Action {
+			x := ds[j]
+			if x.Kind == "evict" {
+				if x.Preemptor != d.Preemptor {
+					break
+				}
+				victimGroups[x.Group] = true
+			} else if x.Group != d.Preemptor && !victimGroups[x.Group] {
+				break
+			}
 			j++
 		}
 		scenario := ds[i:j]
@@ -174,6 +186,21 @@ func (o *ReclaimOracle) AfterCycle(r *Run, cycle int, all []Decision) {
 			}
 		}
 		var received vec3
+		movedUnder := map[string]vec3{} // queue -> demand of this scenario's victims that were nominated again elsewhere
+		for _, s := range scenario {
+			if p := pre.Pods[s.Pod]; p != nil && s.Kind == "evict" && replaced[s.Pod] && pre.Groups[p.Group] != nil {
+				if n, ok := active[s.Pod]; ok {
+					dm := demand(p, n)
+					for _, q := range chainOf(pre.Groups[p.Group].Queue) {
+						v := movedUnder[q]
+						for k := range dm {
+							v[k] += dm[k]
+						}
+						movedUnder[q] = v
+					}
+				}
+			}
+		}
 		for _, s := range scenario {
 			p := pre.Pods[s.Pod]
 			if p == nil {
@@ -291,7 +318,30 @@ func (o *ReclaimOracle) AfterCycle(r *Run, cycle int, all []Decision) {
 				}
 				ra, rsib := ratio(after[ar].all[k], fa), ratio(after[av].all[k], fs)
 				if ra > 1+1e-9 && fs > 0 && ra >= rsib+1e-9 {
-					fail("reclaimer_side_more_saturated", "%s: after reclaim queue %s holds %.3f %s of fair share %.3f (saturation %.3f) while %s, which it took from, holds %.3f of %.3f (saturation %.3f)",
+					rule := "reclaimer_side_more_saturated"
+					// The scenario validator (reclaimable.Reclaimable) is called with every task the simulation evicted,
+					// including potential victims of the reclaimer's own side that the same scenario then puts back (in
+					// place, or nominated elsewhere): it counts them as freed although they stay allocated. Signature:
+					// the outcome would pass if preemptible pods of other workloads on the reclaimer's side were gone.
+					slack := movedUnder[ar][k]
+					for _, name := range sortedKeys(active) {
+						p := pre.Pods[name]
+						g := pre.Groups[p.Group]
+						if g == nil || !g.Preemptible || p.Group == d.Preemptor {
+							continue
+						}
+						for _, q := range chainOf(g.Queue) {
+							if q == ar {
+								slack += demand(p, active[name])[k]
+							}
+						}
+					}
+					if slack > 0 {
+						if ra2 := ratio(after[ar].all[k]-slack, fa); !(ra2 > 1+1e-9 && ra2 >= rsib+1e-9) {
+							rule += "_counting_replaced_victims_as_freed"
+						}
+					}
+					fail(rule, "%s: after reclaim queue %s holds %.3f %s of fair share %.3f (saturation %.3f) while %s, which it took from, holds %.3f of %.3f (saturation %.3f)",
 						where, ar, after[ar].all[k], vecNames[k], fa, ra, av, after[av].all[k], fs, rsib)
 				}
 			}
